@@ -120,7 +120,7 @@ func (e *protoExec) opInner(op string) string {
 		return i, i >= 0 && i < e.n
 	}
 	switch f[0] {
-	case "p.newterm", "p.lead", "p.elect", "p.electm", "p.add", "p.write", "p.racewrite", "p.racesync", "p.restart", "p.crash", "p.trunc", "p.cut":
+	case "p.newterm", "p.lead", "p.elect", "p.electm", "p.add", "p.write", "p.racewrite", "p.racesync", "p.raceredeliver", "p.restart", "p.crash", "p.trunc", "p.cut":
 		// the model talks about settled states: everything deliverable has been delivered
 		if !e.c.WaitSettled(8 * time.Second) {
 			e.unrel = true
@@ -261,7 +261,12 @@ func (e *protoExec) opInner(op string) string {
 		if !ok {
 			return mark("err:no-such-node")
 		}
-		return mark(e.c.Write(i, atoi(f[2]), 1500*time.Millisecond))
+		r := e.c.Write(i, atoi(f[2]), 1500*time.Millisecond)
+		if r == "timeout" && e.c.StaleLeaderActive(i) {
+			// liveness under a competing stale leader is a matter of timing: the rest of the script is not comparable
+			e.unrel = true
+		}
+		return mark(r)
 	case "p.racewrite":
 		i, ok := node(f[1])
 		if !ok {
@@ -276,6 +281,15 @@ func (e *protoExec) opInner(op string) string {
 			return mark("err:no-such-node")
 		}
 		return mark(e.c.RaceAppendNewTerm(l, fo, atoi(f[3]), int64(atoi(f[4]))))
+	case "p.raceredeliver":
+		// p.raceredeliver <leader> <follower> <id>: the follower has appended the entry, its sync goroutine has not
+		// run, the stream breaks and the entry is delivered again
+		l, ok1 := node(f[1])
+		fo, ok2 := node(f[2])
+		if !ok1 || !ok2 {
+			return mark("err:no-such-node")
+		}
+		return mark(e.c.RaceAppendRedeliver(l, fo, atoi(f[3])))
 	case "p.cut":
 		if i, ok := node(f[1]); ok {
 			e.c.Cut(i)
@@ -648,6 +662,10 @@ func protoOracle(ops, impl []string, which string) string {
 					return fmt.Sprintf("op %d: n%s answered the new-term request with head %s but its log then ended at %s: the log grew after the node was fenced", i, f[1], strings.TrimPrefix(p[0], "head="), strings.TrimPrefix(p[1], "wal="))
 				}
 			}
+		case "p.raceredeliver":
+			if out == "ack-before-sync" {
+				return fmt.Sprintf("op %d: the leader n%s holds an acknowledgement of follower n%s for an entry that is not among the follower's synced entries: the entry was appended through a stream that broke before the sync, delivered again, and acknowledged at once as a duplicate", i, f[1], f[2])
+			}
 		case "p.racesync":
 			// C04: the same for a follower whose sync goroutine had not yet run when it was fenced
 			if want("C04") && strings.HasPrefix(out, "head=") {
@@ -954,6 +972,13 @@ func genProtoDirected(rng *rand.Rand, which string, i int) []string {
 		return []string{"p.init n=3", "p.elect 0 1", fmt.Sprintf("p.write 0 %d", 10+i), "p.settle", "p.cut 0", fmt.Sprintf("p.write 0 %d", 100+i), fmt.Sprintf("p.write 0 %d", 200+i),
 			"p.elect 1 2", fmt.Sprintf("p.write 1 %d", 300+i), "p.settle", "p.state", "p.heal 0", "p.settle", "p.state", fmt.Sprintf("p.write 1 %d", 400+i), "p.settle", "p.state",
 			"p.elect 2 3", "p.settle", "p.state", "p.read 2"}
+	}
+	if (which == "C03" || which == "C01") && i%10 == 0 {
+		// an entry is appended by a follower whose sync goroutine is held; the stream breaks; the cursor delivers
+		// the entry again: it is acknowledged only once it is synced
+		fo := 1 + (i/10)%2
+		return []string{"p.init n=3", "p.elect 0 1", fmt.Sprintf("p.write 0 %d", 10+i), "p.settle", "p.state",
+			fmt.Sprintf("p.raceredeliver 0 %d %d", fo, 900+i), "p.settle", "p.state", fmt.Sprintf("p.write 0 %d", 1900+i), "p.settle", "p.state", "p.read 0"}
 	}
 	if which == "C03" && i%5 == 3 {
 		// an I/O error in a follower's WAL while it takes an entry: the stream breaks, the leader's cursor
